@@ -34,7 +34,19 @@ RULE = ('cases = (equation or stepper class) x array layout (1-3 sources, '
         'the pair symbols. Non-trivial = the removed name is needed on that '
         'array only through a pair symbol, or it is removed from a non-first '
         'source (steppers: from an array while another array has it); '
-        'distinct by case hash.')
+        'distinct by case hash. Structure around the equation: plain filler '
+        'groups before / after its group (its group is not the last one; '
+        'groups with sub-groups next to groups without), 2 or 3 stages, Group '
+        'options (iterate, real=False/update_nnps, start/stop_idx, condition), '
+        'a complete twin instance of the same class on another array before or '
+        'after it, the particle-array list reversed or rotated. Steppers: 36 '
+        'shipped + 4 toy classes, the stepper under test first / in the middle '
+        '/ last in the order of the integrator keyword arguments, some names '
+        'supplied as constants, PEC / EPEC / TVDRK3 integrators. Paths: '
+        'construction (AccelerationEval + SPHCompiler + integrator code '
+        'generation), SPHCompiler.compile(), SPHEvaluator(...), '
+        'Solver.setup(...) - the last three with the build step replaced by a '
+        'sentinel exception (reaching it = accepted).')
 ASSUMPTIONS = [
     'requirements of pair symbols follow their documented formulas '
     '(docs/source/design/equations.rst): WI/DWI/GHI/WDASHI need h on the '
@@ -49,6 +61,12 @@ ASSUMPTIONS = [
     'destination',
     'a name supplied as a constant satisfies a requirement just as a '
     'property does',
+    'paths compile / evaluator / solver: ExtModule.build/load and '
+    'AccelerationEvalCythonHelper.compile raise a sentinel; everything before '
+    'them (all checks and the code generation) runs unmodified',
+    'Group options and Group(start_idx=..., stop_idx=...) are given as '
+    'integers only (a string there would be a further requirement the '
+    'property does not speak about)',
     'message check: the class name and the missing name (as a whole word) '
     'must occur in the RuntimeError text; for a misspelt array the bad array '
     'name must occur',
@@ -64,7 +82,12 @@ ESSENTIAL_LABELS = {'all': (
      'fault:bad_stepper', 'stepper:remove', 'stepper:other_has_it',
      'shipped:equation', 'shipped:stepper', 'toy', 'generated',
      'arrays:constants', 'arrays:minimal', 'arrays:exact', 'filler',
-     'enum:done']
+     'enum:done',
+     'struct:eq_group_not_last', 'struct:mixed_subgroups',
+     'struct:group_opts', 'struct:stages3', 'struct:twin_before',
+     'struct:twin_after', 'arrays:permuted', 'via:construct', 'via:compile',
+     'via:evaluator', 'via:solver', 'toy:stepper', 'stepper:constants',
+     'stepper_pos:first', 'stepper_pos:middle', 'stepper_pos:last']
     + ['placement:' + p for p in PLACEMENTS]
     + ['sym:' + s for s in SYMBOLS])}
 EXHAUSTIVE = {'quick': False, 'thorough': False}
@@ -278,57 +301,116 @@ def word_in(name, text):
 _DEVNULL = open(os.devnull, 'w')
 
 
+class CompileReached(Exception):
+    """Raised instead of building an extension module: the set-up path ran to
+    the point where the generated code would be compiled = accepted."""
+
+
 def _no_compile(*a, **k):
-    raise AssertionError('C20 must never compile anything')
+    raise CompileReached('C20 must never compile anything')
 
 
 def _guard():
-    """Belt and braces: make compilation impossible in this process."""
-    from pysph.sph.sph_compiler import SPHCompiler
+    """Belt and braces: make compilation impossible in this process.  The
+    driver methods (SPHCompiler.compile, SPHEvaluator, Solver.setup) stay
+    as they are; what they would hand to the C compiler raises instead."""
     from pysph.sph.acceleration_eval_cython_helper import \
         AccelerationEvalCythonHelper
-    if SPHCompiler.compile is not _no_compile:
-        SPHCompiler.compile = _no_compile
+    from compyle.ext_module import ExtModule
+    if AccelerationEvalCythonHelper.compile is not _no_compile:
         AccelerationEvalCythonHelper.compile = _no_compile
+        ExtModule.build = _no_compile
+        ExtModule.load = _no_compile
 
 
-def attempt(arrays, equations, kernel, integrator=None, codegen=False):
-    """Run the set-up path; -> None when accepted, else the exception."""
+VIAS = ['construct', 'compile', 'evaluator', 'solver']
+
+
+def attempt(arrays, equations, kernel, integrator=None, codegen=False,
+            via='construct'):
+    """Run the set-up path; -> None when accepted, else the exception.
+
+    construct: AccelerationEval(s) + SPHCompiler(...) (+ the integrator code
+               generation compile() would perform first);
+    compile:   SPHCompiler(...).compile() up to the point where the generated
+               source is handed to the build step;
+    evaluator: pysph.tools.sph_evaluator.SPHEvaluator(...) likewise;
+    solver:    pysph.solver.solver.Solver(...).setup(...) likewise."""
     from pysph.sph.acceleration_eval import make_acceleration_evals
     from pysph.sph.sph_compiler import SPHCompiler
     _guard()
     try:
         with contextlib.redirect_stdout(_DEVNULL):
+            if via == 'evaluator':
+                from pysph.tools.sph_evaluator import SPHEvaluator
+                SPHEvaluator(arrays, equations, dim=2, kernel=kernel)
+                raise AssertionError('SPHEvaluator did not reach compile')
+            if via == 'solver':
+                from pysph.solver.solver import Solver
+                solver = Solver(dim=2, integrator=integrator, kernel=kernel,
+                                dt=1e-3, tf=1e-3)
+                solver.setup(arrays, equations, None, kernel)
+                raise AssertionError('Solver.setup did not reach compile')
             evals = make_acceleration_evals(arrays, equations, kernel)
             comp = SPHCompiler(evals, integrator)
+            if via == 'compile':
+                comp.compile()
+                raise AssertionError('compile() did not reach the build')
             if integrator is not None:
                 comp.integrator_helper.get_code()
             if codegen:
                 for h in comp.acceleration_eval_helpers:
                     h.get_code()
+    except CompileReached:
+        return None
     except Exception as ex:
         return ex
     return None
 
 
-def place(eq, fillers_before, fillers_after, placement, stage, good_dest):
+def _always(t, dt):
+    return True
+
+
+GOPTS = [
+    dict(),
+    dict(iterate=True, max_iterations=3, min_iterations=1),
+    dict(real=False, update_nnps=True),
+    dict(start_idx=0, stop_idx=1),
+    dict(condition=_always, name='c20grp'),
+]
+
+
+def place(block, fillers_before, fillers_after, placement, stage, good_dest,
+          wrap=(0, 0), stages=2, gopts=0):
+    """block: the equation under test (with its complete twin, if any).
+    wrap = (head, tail): plain top-level filler groups before / after the
+    structure holding the block (so the block's group is not the last one,
+    and groups with sub-groups stand next to groups without)."""
     from pysph.sph.equation import Group, MultiStageEquations
-    seq = list(fillers_before) + [eq] + list(fillers_after)
+    from checks.c20_eqs import C20Filler
+
+    def mk():
+        return C20Filler(dest=good_dest, sources=[good_dest])
+    kw = GOPTS[gopts]
+    seq = list(fillers_before) + list(block) + list(fillers_after)
     if placement == 'flat':
         return seq
+    head = [Group([mk()]) for _ in range(wrap[0])]
+    tail = [Group([mk()]) for _ in range(wrap[1])]
     if placement == 'group':
-        return [Group([f]) for f in fillers_before] + [Group(
-            [eq] + list(fillers_after))]
+        return head + [Group([f]) for f in fillers_before] + [Group(
+            list(block) + list(fillers_after), **kw)] + tail
     if placement == 'subgroup':
-        subs = [Group([f]) for f in fillers_before] + [Group([eq])] + \
+        subs = [Group([f]) for f in fillers_before] + \
+            [Group(list(block), **kw)] + \
             [Group([f]) for f in fillers_after]
-        return [Group(subs)]
-    # multistage: the equation sits in stage `stage` of two
-    from checks.c20_eqs import C20Filler
-    other = [C20Filler(dest=good_dest, sources=[good_dest])]
-    mine = [Group(seq)]
-    return MultiStageEquations([mine, other] if stage == 0 else
-                               [other, mine])
+        return head + [Group(subs)] + tail
+    # multistage: the block sits in stage `stage` of `stages`
+    mine = head + [Group(seq, **kw)] + tail
+    stg = [[mk()] for _ in range(stages)]
+    stg[stage % stages] = mine
+    return MultiStageEquations(stg)
 
 
 # ------------------------------------------------------------ equation case
@@ -386,7 +468,8 @@ def check_equation(case):
     labels.extend('sym:' + s for s in syms)
     arrays = [good_dest] + [s for s in good_srcs if s != good_dest]
     nb, na = case.get('fill', [0, 0])
-    use_fill = bool(nb or na or case['placement'] == 'multistage')
+    use_fill = bool(nb or na or case['placement'] == 'multistage' or (
+        case['placement'] != 'flat' and any(case.get('wrap', [0, 0]))))
     need = {}
     for a in arrays:
         n = set([FILL]) if use_fill else set()
@@ -438,16 +521,55 @@ def check_equation(case):
                               rname if a == target else None))
     if case.get('bystander'):
         pas.append(make_array('zz', [], (), True))
+    # a complete instance of the same class on an array of its own, before
+    # (1) or after (2) the instance under test
+    block = [eq]
+    twin = int(case.get('twin', 0))
+    if twin:
+        try:
+            teq = instantiate(cls, 't0', ['t0'])
+        except Exception:
+            teq = None
+        if teq is not None and teq.dest == 't0' and (
+                teq.sources is None or list(teq.sources) == ['t0']):
+            pas.append(make_array(
+                't0', ed | idd | es | ids | (set([FILL]) if use_fill else
+                                             set()), consts, minimal))
+            block = [teq, eq] if twin == 1 else [eq, teq]
+            labels.append('struct:twin_before' if twin == 1 else
+                          'struct:twin_after')
+    aperm = int(case.get('aperm', 0))
+    if aperm and len(pas) > 1:
+        pas = pas[::-1] if aperm == 1 else pas[1:] + pas[:1]
+        labels.append('arrays:permuted')
     # complete filler equations around the equation under test
     fsrc = good_srcs if good_srcs else [good_dest]
     fb = [C20Filler(dest=good_dest, sources=list(fsrc)) for _ in range(nb)]
     fa = [C20Filler(dest=fsrc[-1], sources=[good_dest]) for _ in range(na)]
     if nb or na:
         labels.append('filler')
-    eqs = place(eq, fb, fa, case['placement'], case.get('stage', 1),
-                good_dest)
+    placement = case['placement']
+    wrap = case.get('wrap', [0, 0])
+    nstages = int(case.get('stages', 2))
+    gopts = int(case.get('gopts', 0))
+    if placement != 'flat':
+        if wrap[1]:
+            labels.append('struct:eq_group_not_last')
+        if placement == 'subgroup' and (wrap[0] or wrap[1]):
+            labels.append('struct:mixed_subgroups')
+        if gopts:
+            labels.append('struct:group_opts')
+        if placement == 'multistage' and nstages > 2:
+            labels.append('struct:stages3')
+    eqs = place(block, fb, fa, placement, case.get('stage', 1),
+                good_dest, wrap, nstages, gopts)
     kernel = CubicSpline(dim=2)
-    err = attempt(pas, eqs, kernel, None, codegen=bool(case.get('codegen')))
+    via = case.get('via', 'construct')
+    if via == 'evaluator' and placement == 'multistage':
+        via = 'construct'
+    labels.append('via:' + via)
+    err = attempt(pas, eqs, kernel, None, codegen=bool(case.get('codegen')),
+                  via=via)
     where = '%s in %s, dest=%s sources=%s' % (cname, case['placement'],
                                                dest, srcs)
     if ftype == 'none':
@@ -456,7 +578,8 @@ def check_equation(case):
                 'AccelerationEval', 'complete_rejected',
                 'complete problem (%s) rejected: %r' % (where, err),
                 dict(exc=type(err).__name__,
-                     stage='codegen' if case.get('codegen') else 'setup',
+                     stage='codegen' if (case.get('codegen') or
+                                         via != 'construct') else 'setup',
                      exact_array='arrays:exact' in labels),
                 expected='accepted', observed=repr(err)))
         return fails, labels, nontrivial, None
@@ -498,7 +621,9 @@ def check_stepper(case):
     from pysph.sph import integrator as integ_mod
     from pysph.sph.integrator_step import EulerStep
     from checks.c20_eqs import C20Filler
-    labels, fails = ['shipped:stepper'], []
+    labels, fails = [], []
+    labels.append('toy:stepper' if case['cls'].startswith(TOYMOD) else
+                  'shipped:stepper')
     cls = load_class(case['cls'])
     cname = cls.__name__
     try:
@@ -523,24 +648,41 @@ def check_stepper(case):
             labels.append('stepper:other_has_it')
             nontrivial = True
     euler_needs = stepper_needs(EulerStep())
+    consts = [c for c in case.get('consts', []) if c in needs and
+              c not in DEFAULT_PROPS and c not in euler_needs]
+    if consts:
+        labels.append('stepper:constants')
     pas = []
     for i, a in enumerate(names):
         props = set(needs) | euler_needs | set([FILL])
-        pas.append(make_array(a, props, (), False,
+        pas.append(make_array(a, props, consts, False,
                               rname if i == pos else None))
-    steppers = {}
     key = names[pos]
     if ftype == 'bad_stepper':
         key = mangle(key, fault['how'])
-    steppers[key] = stepper
     others = case.get('others', 'none')
+    pairs = [(pos, key, stepper)]
     for i, a in enumerate(names):
         if i != pos and others != 'none':
-            steppers[a] = cls() if others == 'same' else EulerStep()
+            pairs.append((i, a, cls() if others == 'same' else EulerStep()))
+    # order of the keyword arguments = order in which the helper walks the
+    # steppers: the stepper under test first (as given), or by array index
+    order = case.get('order', 'faulty_first')
+    if order != 'faulty_first':
+        pairs.sort(key=lambda kv: kv[0], reverse=(order == 'reverse'))
+    pairs = [(k, v) for _, k, v in pairs]
+    steppers = dict(pairs)
+    if len(pairs) > 1:
+        at = [k for k, _ in pairs].index(key)
+        labels.append('stepper_pos:' + (
+            'first' if at == 0 else
+            'last' if at == len(pairs) - 1 else 'middle'))
     icls = getattr(integ_mod, case.get('integrator', 'PECIntegrator'))
     integrator = icls(**steppers)
     eqs = [C20Filler(dest=names[0], sources=[names[0]])]
-    err = attempt(pas, eqs, CubicSpline(dim=2), integrator)
+    via = case.get('via', 'construct')
+    labels.append('via:' + via)
+    err = attempt(pas, eqs, CubicSpline(dim=2), integrator, via=via)
     where = '%s on %s of %s (%s)' % (cname, names[pos], names,
                                      icls.__name__)
     if ftype == 'none':
@@ -596,6 +738,21 @@ def execute(case):
 
 
 # -------------------------------------------------------------- enumeration
+STRUCTS = [
+    dict(),
+    dict(wrap=[0, 1]),
+    dict(twin=1),
+    dict(wrap=[1, 1], gopts=1),
+    dict(aperm=1),
+    dict(twin=2, via='compile'),
+    dict(wrap=[1, 0], gopts=2, via='evaluator'),
+    dict(stages=3, stage=1, wrap=[0, 2], gopts=3),
+    dict(aperm=2, gopts=4, via='compile'),
+    dict(stages=3, stage=2, twin=1),
+    dict(stages=3, stage=0, wrap=[0, 1]),
+]
+
+
 def variants(tier):
     if tier == 'quick':
         return [(1, -1), (1, 0), (2, -1), (2, 1), (3, -1), (3, 1), (3, 2)]
@@ -611,6 +768,7 @@ def enumerate_equation(cpath, tier, emit):
         return 'cannot instantiate: %r' % (ex,)
     base = dict(kind='eq', cls=cpath)
     seen = set()
+    kstruct = [sum(map(ord, cpath))]
     for nsrc, dpos in variants(tier):
         dest, srcs = layout(nsrc, dpos)
         try:
@@ -632,12 +790,21 @@ def enumerate_equation(cpath, tier, emit):
             b = dict(base, nsrc=nsrc, dest_pos=dpos, placement=pl,
                      fill=[1, 1] if pl != 'flat' else [0, 0], stage=1,
                      bystander=True)
-            emit(dict(b, fault=dict(type='none')))
+
+            def var(fault_free=False):
+                # the structure around the equation cycles through STRUCTS
+                # (same number of cases as without)
+                kstruct[0] += 1
+                v = dict(STRUCTS[kstruct[0] % len(STRUCTS)])
+                if fault_free and tier == 'quick':
+                    v.pop('via', None)    # code generation costs 50 ms
+                return v
+            emit(dict(b, fault=dict(type='none'), **var(True)))
             for how in (MANGLE if tier != 'quick' else MANGLE[:1]):
-                emit(dict(b, fault=dict(type='bad_dest', how=how)))
+                emit(dict(b, fault=dict(type='bad_dest', how=how), **var()))
                 for j in range(len(srcs)):
                     emit(dict(b, fault=dict(type='bad_source', pos=j,
-                                            how=how)))
+                                            how=how), **var()))
             for ai, a in enumerate(arrays):
                 n = set()
                 if a == dest:
@@ -646,7 +813,7 @@ def enumerate_equation(cpath, tier, emit):
                     n |= es | ids
                 for name in sorted(n):
                     f = dict(type='remove', array=ai, name=name)
-                    emit(dict(b, fault=f))
+                    emit(dict(b, fault=f, **var()))
                     if tier != 'quick' and pl == 'multistage':
                         emit(dict(b, fault=f, stage=0, fill=[0, 2]))
         nondef = sorted((ed | es | idd | ids) - set(DEFAULT_PROPS))
@@ -673,16 +840,38 @@ def enumerate_stepper(cpath, tier, emit):
     except Exception as ex:
         return 'cannot instantiate: %r' % (ex,)
     base = dict(kind='stepper', cls=cpath, integrator='PECIntegrator')
-    lay = [(1, 0, 'none'), (2, 1, 'euler'), (3, 1, 'same')]
+    # (arrays, position of the stepper under test, other steppers, order of
+    # the keyword arguments, path)
+    lay = [(1, 0, 'none', 'faulty_first', 'construct'),
+           (2, 0, 'euler', 'natural', 'construct'),      # first of two
+           (2, 1, 'euler', 'natural', 'solver'),         # last of two
+           (3, 1, 'same', 'natural', 'compile')]         # middle of three
     if tier != 'quick':
-        lay += [(2, 0, 'none'), (2, 0, 'same'), (3, 2, 'euler'),
-                (3, 0, 'none')]
-    for narr, pos, others in lay:
-        b = dict(base, narr=narr, pos=pos, others=others)
+        lay += [(2, 0, 'none', 'natural', 'construct'),
+                (2, 0, 'same', 'reverse', 'construct'),
+                (3, 2, 'euler', 'natural', 'construct'),
+                (3, 0, 'none', 'natural', 'compile'),
+                (3, 1, 'same', 'faulty_first', 'construct'),
+                (3, 2, 'same', 'reverse', 'solver'),
+                (2, 1, 'euler', 'faulty_first', 'construct')]
+    nondef = sorted(needs - set(DEFAULT_PROPS))
+    for narr, pos, others, order, via in lay:
+        b = dict(base, narr=narr, pos=pos, others=others, order=order,
+                 via=via)
         emit(dict(b, fault=dict(type='none')))
         emit(dict(b, fault=dict(type='bad_stepper', how='append')))
-        for name in sorted(needs):
-            emit(dict(b, fault=dict(type='remove', name=name)))
+        for k, name in enumerate(sorted(needs)):
+            # the code-generating paths cost 50 ms: a few names per class
+            v = via if (k < 2 or k == len(needs) - 1 or
+                        tier != 'quick') else 'construct'
+            emit(dict(b, via=v, fault=dict(type='remove', name=name)))
+        if nondef and narr > 1:
+            # non-default names supplied as constants
+            emit(dict(b, consts=nondef, fault=dict(type='none')))
+            emit(dict(b, consts=nondef[1:],
+                      fault=dict(type='remove', name=nondef[0])))
+            emit(dict(b, consts=nondef,
+                      fault=dict(type='remove', name=nondef[-1])))
     return None
 
 
@@ -693,6 +882,8 @@ def all_units():
     units += [('eq', TOYMOD + '.' + c.__name__)
               for c in c20_eqs.TOY_CLASSES]
     units += [('stepper', k) for k in sorted(steps)]
+    units += [('stepper', TOYMOD + '.' + c.__name__)
+              for c in c20_eqs.TOY_STEPPERS]
     return units
 
 
@@ -734,7 +925,10 @@ def run_enumeration(spec, ctx, stats):
 
 # ---------------------------------------------------------------- generator
 POOL = ['x', 'y', 'z', 'h', 'u', 'v', 'w', 'rho', 'm', 'p', 'q0', 'q1',
-        'q2', 'q3', 'c20k', 'tag', 'gid', 'pid']
+        'q2', 'q3', 'c20k', 'tag', 'gid', 'pid',
+        # names that contain / are contained in other names, mixed case,
+        # underscores (substring or case-folded matching would go wrong)
+        'x0', 'ax', 'arho', 'rho0', 'h0', 'V', 'dt_cfl', 'q', 'Q0']
 EXTRA_ARGS = {
     'initialize': ['t', 'dt'],
     'initialize_pair': ['t', 'dt'],
@@ -810,6 +1004,21 @@ def gen_case(draw, toy_needs):
                 minimal=draw(st.integers(0, 2)) == 0)
     if hooks is not None:
         case['hooks'] = hooks
+    # structure around the equation, order of the arrays, path
+    if draw(st.booleans()):
+        case['wrap'] = [draw(st.integers(0, 2)), draw(st.integers(0, 2))]
+    if draw(st.booleans()):
+        case['gopts'] = draw(st.integers(0, len(GOPTS) - 1))
+    if case['placement'] == 'multistage' and draw(st.booleans()):
+        case['stages'] = 3
+        case['stage'] = draw(st.integers(0, 2))
+    if draw(st.integers(0, 2)) == 0:
+        case['twin'] = draw(st.integers(1, 2))
+    if draw(st.integers(0, 2)) == 0:
+        case['aperm'] = draw(st.integers(1, 2))
+    if hooks is None and draw(st.booleans()):
+        # generated classes have no source file: no code generation
+        case['via'] = draw(st.sampled_from(['compile', 'evaluator']))
     allneeded = sorted((ed | es | idd | ids) - set(DEFAULT_PROPS))
     if allneeded and draw(st.booleans()):
         case['consts'] = draw(st.lists(st.sampled_from(allneeded),
@@ -843,6 +1052,52 @@ def gen_case(draw, toy_needs):
     return case
 
 
+@st.composite
+def gen_stepper_case(draw, stepper_needs_table):
+    cpath = draw(st.sampled_from(sorted(stepper_needs_table)))
+    needs = stepper_needs_table[cpath]
+    narr = draw(st.integers(1, 3))
+    case = dict(kind='stepper', cls=cpath, narr=narr,
+                pos=draw(st.integers(0, narr - 1)),
+                others=draw(st.sampled_from(['none', 'euler', 'same'])),
+                order=draw(st.sampled_from(['faulty_first', 'natural',
+                                            'reverse'])),
+                integrator=draw(st.sampled_from(
+                    ['PECIntegrator', 'EPECIntegrator',
+                     'TVDRK3Integrator'])),
+                via=draw(st.sampled_from(['construct', 'construct',
+                                          'compile', 'solver'])))
+    nondef = sorted(set(needs) - set(DEFAULT_PROPS))
+    if nondef and draw(st.booleans()):
+        case['consts'] = draw(st.lists(st.sampled_from(nondef), unique=True,
+                                       max_size=4))
+    ft = draw(st.sampled_from(['remove'] * 6 + ['none', 'bad_stepper',
+                                                 'bad_stepper']))
+    if ft == 'remove' and not needs:
+        ft = 'none'
+    if ft == 'remove':
+        case['fault'] = dict(type='remove',
+                             name=draw(st.sampled_from(sorted(needs))))
+    elif ft == 'none':
+        case['fault'] = dict(type='none')
+    else:
+        case['fault'] = dict(type='bad_stepper',
+                             how=draw(st.sampled_from(MANGLE)))
+    return case
+
+
+def stepper_table():
+    out = {}
+    for kind, cpath in all_units():
+        if kind != 'stepper':
+            continue
+        try:
+            out[cpath] = sorted(stepper_needs(load_class(cpath)()))
+        except Exception:
+            pass
+    return out
+
+
 def toy_table():
     from checks import c20_eqs
     out = {}
@@ -871,7 +1126,10 @@ def run_shard(spec, ctx):
     if spec['kind'] == 'enum':
         run_enumeration(spec, ctx, stats)
         return stats.result()
-    search(gen_case(toy_table()), execute,
+    strat = st.one_of(gen_case(toy_table()), gen_case(toy_table()),
+                      gen_case(toy_table()),
+                      gen_stepper_case(stepper_table()))
+    search(strat, execute,
            derive_seed(ctx.seed, 'C20', spec['name']),
            spec['max_examples'], stats, shrink=True, journal=ctx.journal)
     return stats.result()
